@@ -226,6 +226,7 @@ class CVRPTWEnv(CVRPEnv):
         path_instances: str = None,
         type: str = None,
         compute_edge_weights: bool = False,
+        batch_size=[],
     ):
         if solomon:
             assert type in [
